@@ -15,15 +15,22 @@ def isInt (q : Rat) : Bool := q.den == 1
 def hopsOk (n : Nat) (hops : List V) : Bool :=
   hops.length + 1 == max n 1 && hops.all fun h => match h with | some d => decide (0 ≤ d) | none => true
 
+/-- The supplied hop distances are missing wherever one of the hop's four coordinates is
+    (the harness computes them that way; the geodesic routine itself is outside the model). -/
+def hopsConsistent (lon lat hops : List V) : Bool :=
+  (List.range hops.length).all fun j =>
+    !((getV lon j).isNone || (getV lat j).isNone || (getV lon (j + 1)).isNone || (getV lat (j + 1)).isNone)
+      || (getV hops j).isNone
+
 def TestCall.inDom : TestCall → Bool
   | .gross _ _ _ => true
   | .valid _ _ _ _ _ => true
   | .location lon lat _ r hops =>
-      (lon.length != lat.length || hopsOk lon.length hops) &&
+      (lon.length != lat.length || hopsOk lon.length hops) && hopsConsistent lon lat hops &&
       (match r with | some q => decide (0 ≤ q) | none => true)
   | .climatology _ inp t z => inp.length == t.length && inp.length == z.length
   | .spike _ _ _ _ => true
-  | .roc inp t _ => inp.length != t.length || increasing t
+  | .roc inp t thr => (inp.length != t.length || increasing t) && decide (0 ≤ thr)
   | .flatLine inp t s f _ =>
       inp.length == t.length && increasing t && decide (0 ≤ s) && decide (0 ≤ f)
   | .attenuated _ inp t _ _ p mo mp =>
@@ -36,6 +43,7 @@ def TestCall.inDom : TestCall → Bool
   | .density _ _ _ _ => true
   | .pressure _ => true
   | .speed lon lat t _ _ hops =>
-      (lon.length != lat.length || lon.length != t.length) || (increasing t && hopsOk lon.length hops)
+      ((lon.length != lat.length || lon.length != t.length) || (increasing t && hopsOk lon.length hops)) &&
+      hopsConsistent lon lat hops
 
 end IoosQc
